@@ -3,10 +3,12 @@ package props
 import (
 	"encoding/json"
 	"fmt"
+	"time"
 
 	"github.com/enfein/mieru/v3/pkg/appctl/appctlpb"
 	"github.com/enfein/mieru/v3/pkg/protocol"
 	"verifharness/core"
+	"verifharness/sim"
 )
 
 // C14 — no datagram above the MTU; no payload above its length field.
@@ -210,6 +212,16 @@ func init() {
 				}
 			}
 			c.Res.Exhaustive = true
+			// measured datagrams of real UDP sessions at boundary MTUs with maximal padding and low entropy
+			nw := c.N(10, 80)
+			wcases := make([]udpCase, nw)
+			for i := range wcases {
+				wcases[i] = genUDPCase(c.Rand, 40000, false)
+				wcases[i].MTU = []int{1280, 1281, 1400, 1499, 1500}[i%5]
+				wcases[i].Faults = sim.FaultSpec{Seed: 1, Loss: 0.05}
+			}
+			core.Parallel(nw, 10, func(i int) { udpRun(c, wcases[i], "C14") })
+			bgClose.Wait(30 * time.Second)
 			c.Sample(c14Case{Kind: "tie-fragment", MTU: 1280, Transport: 2, Mode: 4})
 		},
 		Replay: func(c *core.Ctx, raw json.RawMessage) {
